@@ -204,15 +204,13 @@ def _staging_tables(ctx):
               detail_bad=f"missing {sorted(need - handed)}", key="TBL|parse_safe|four")
     stored = {n.attr for n in ast.walk(init.node) if isinstance(n, ast.Attribute)
               and isinstance(n.ctx, ast.Store) and norm(n.value) == 'self'}
-    ctx.check(handed <= stored, 'TBL', 'every handed-off list is initialised in ChunkParser.__init__',
-              detail_bad=f"not initialised: {sorted(handed - stored)}", key="TBL|ChunkParser.__init__|staged")
+    ctx.shape(handed <= stored, 'TBL', 'every handed-off list is initialised in ChunkParser.__init__')
     # find_matches forwards both finders' flags (PAIR covers the pairing)
     fm = ctx.repo.func('ChunkParser.find_matches')
     t = ' '.join(norm(s) for s in fm.node.body)
     for src in ('twprge_finder', 'sec_finder'):
-        ctx.check(f"self.w_flags.extend({src}.flags)" in t, 'TBL',
-                  f"find_matches forwards {src}.flags", detail_bad=f"{src} flags are dropped",
-                  key=f"TBL|find_matches|{src}")
+        ctx.shape(f"self.w_flags.extend({src}.flags)" in t, 'TBL',
+                  f"find_matches forwards {src}.flags")
 
 
 def _hand_down(ctx):
@@ -221,17 +219,26 @@ def _hand_down(ctx):
     if len(loops) != 1:
         raise AnalysisError("hand_down_flags: expected one loop over self.tracts")
     got = set()
-    for s in loops[0].body:
-        t = norm(s)
-        for a in ('w_flags', 'w_flag_lines', 'e_flags', 'e_flag_lines'):
-            if t == f"tract.{a}.extend(self.{a})":
-                got.add(a)
-    ctx.check(got == {'w_flags', 'w_flag_lines', 'e_flags', 'e_flag_lines'}, 'TBL',
-              'hand_down_flags extends all four lists of every tract',
-              detail_bad=f"only {sorted(got)} are handed down", key="TBL|hand_down_flags")
-    ctx.check(not any(isinstance(n, (ast.If, ast.Break, ast.Continue)) for n in ast.walk(loops[0])),
-              'TBL', 'hand_down_flags is unconditional', detail_bad="hand-down became conditional",
-              key="TBL|hand_down_flags|unconditional")
+    four = {'w_flags', 'w_flag_lines', 'e_flags', 'e_flag_lines'}
+    generic = False
+    for s in ast.walk(loops[0]):
+        if isinstance(s, ast.Expr):
+            t = norm(s)
+            for a in four:
+                if t == f"tract.{a}.extend(self.{a})":
+                    got.add(a)
+        if isinstance(s, ast.For) and s is not loops[0]:
+            names = ctx.fold.eval(s.iter, ctx.fold.func_env(hd), hd.module.name)
+            if isinstance(names, (tuple, list)) and all(isinstance(x, str) for x in names) \
+                    and 'getattr(tract' in norm(s) and 'getattr(self' in norm(s) and '.extend(' in norm(s):
+                got |= set(names) & four
+                generic = True
+    ctx.tri(got == four, bool(got) and got != four, 'TBL',
+            'hand_down_flags extends all four lists of every tract',
+            detail_bad=f"only {sorted(got)} are handed down: {sorted(four - got)} of the description never reach its tracts",
+            key="TBL|hand_down_flags")
+    ctx.shape(not any(isinstance(n, (ast.If, ast.Break, ast.Continue)) for n in ast.walk(loops[0])),
+              'TBL', 'hand_down_flags is unconditional')
     # order in PLSSParser.parse: producers, then hand_down_flags, on every path
     p = ctx.repo.func('PLSSParser.parse')
     cfg, rd = flow.analyse(p.node)
@@ -262,25 +269,23 @@ def _hand_down(ctx):
     safe = ctx.repo.func('ChunkParser.parse_safe')
     names = [(dotted(s.value.func) or '') for s in safe.node.body
              if isinstance(s, ast.Expr) and isinstance(s.value, ast.Call)]
-    ctx.check('self.parse_chunk' in names and 'self.gen_flags_chunk' in names, 'ORDER',
-              'parse_safe runs gen_flags_chunk for every chunk',
-              detail_bad="gen_flags_chunk is no longer called unconditionally by parse_safe",
-              key="ORDER|parse_safe|gen_flags_chunk")
+    ctx.shape('self.parse_chunk' in names and 'self.gen_flags_chunk' in names, 'ORDER',
+              'parse_safe runs gen_flags_chunk for every chunk')
 
 
 def _flawed(ctx):
     for cls in ('PLSSDesc', 'Tract'):
         fi = ctx.repo.func(f"{cls}.desc_is_flawed")
         t = norm(fi.node.body[-1])
-        ctx.check(t in ('return len(self.e_flags) > 0', 'return bool(self.e_flags)',
+        ctx.shape(t in ('return len(self.e_flags) > 0', 'return bool(self.e_flags)',
                         'return len(self.e_flags) != 0'), 'TBL',
-                  f"{cls}.desc_is_flawed == (there is an error flag)",
-                  detail_bad=f"desc_is_flawed is `{t}`", key=f"TBL|{cls}.desc_is_flawed")
+                  f"{cls}.desc_is_flawed == (there is an error flag)")
     fi = ctx.repo.func('PLSSParser.check_error_tracts')
     calls = [c for c in ast.walk(fi.node) if isinstance(c, ast.Call)
              and isinstance(c.func, ast.Attribute) and c.func.attr == 'trs_is_error']
     if len(calls) != 1:
-        raise AnalysisError("check_error_tracts: expected one trs_is_error() call")
+        ctx.undecided('TBL', 'check_error_tracts asks about Twp, Rge and Sec', 'trs_is_error call not recognised')
+        return
     c = calls[0]
     restricted = [norm(a) for a in c.args] + [f"{k.arg}={norm(k.value)}" for k in c.keywords]
     ctx.check(not any(r.endswith('False') or r == 'False' for r in restricted), 'TBL',
@@ -289,24 +294,20 @@ def _flawed(ctx):
                          f"undecipherable component raises no error flag",
               key="TBL|check_error_tracts|components", where=common.loc(fi, c))
     t = ' '.join(norm(s) for s in fi.node.body)
-    ctx.check('any(' in t and 'for tract in self.tracts' in t, 'TBL',
-              'check_error_tracts looks at every tract',
-              detail_bad="no any(... for tract in self.tracts)", key="TBL|check_error_tracts|any")
+    ctx.shape('any(' in t and 'for tract in self.tracts' in t, 'TBL',
+              'check_error_tracts looks at every tract')
     ifs = [n for n in fi.node.body if isinstance(n, ast.If)]
     ok = any('self.e_flags.append(flag)' in ' '.join(norm(s) for s in n.body)
              and 'not' not in norm(n.test) for n in ifs)
-    ctx.check(ok, 'TBL', 'check_error_tracts raises an error flag when an error tract exists',
-              detail_bad="error flag is not raised under `if error_found`", key="TBL|check_error_tracts|flag")
+    ctx.shape(ok, 'TBL', 'check_error_tracts raises an error flag when an error tract exists')
     # delegation chain Tract.trs_is_error -> TRS.is_error (three components)
     tf = ctx.repo.func('Tract.trs_is_error')
-    ctx.check(norm(tf.node.body[-1]) == 'return self.__trs.is_error(twp, rge, sec)', 'TBL',
-              'Tract.trs_is_error delegates all three switches',
-              detail_bad=f"`{norm(tf.node.body[-1])}`", key="TBL|Tract.trs_is_error")
+    ctx.shape(norm(tf.node.body[-1]) == 'return self.__trs.is_error(twp, rge, sec)', 'TBL',
+              'Tract.trs_is_error delegates all three switches')
     ie = ctx.repo.func('TRS.is_error')
     t = norm(ie.node.body[-1])
     ok = all(f"{c} and self.{c}_num is None and (not self.{c}_undef)" in t for c in ('twp', 'rge', 'sec'))
-    ctx.check(ok, 'TBL', 'TRS.is_error: component is an error iff it has no number and is not undefined',
-              detail_bad=f"`{t}`", key="TBL|TRS.is_error")
+    ctx.shape(ok, 'TBL', 'TRS.is_error: component is an error iff it has no number and is not undefined')
 
 
 TRIGGERS = {
@@ -363,6 +364,27 @@ def _warnings(ctx):
                     break
             else:
                 ctx.ok('RX-LANG', f"{name} finds {w!r}")
+    # the scan cursor is reset for every warning regex
+    outer = [n for n in walk_local(gf.node) if isinstance(n, ast.For) and 'rgx_and_how_to_handle' in norm(n.iter)]
+    cursors = set()
+    for c in walk_local(gf.node):
+        if isinstance(c, ast.Call) and isinstance(c.func, ast.Attribute) and c.func.attr == 'search':
+            for kw_ in c.keywords:
+                if kw_.arg == 'pos' and isinstance(kw_.value, ast.Name):
+                    cursors.add(kw_.value.id)
+    if outer and cursors:
+        for cur in sorted(cursors):
+            resets = [n for n in walk_local(gf.node) if isinstance(n, ast.Assign) and norm(n.targets[0]) == cur
+                      and isinstance(n.value, ast.Constant) and n.value.value == 0]
+            moved = [n for n in walk_local(gf.node) if isinstance(n, ast.Assign) and norm(n.targets[0]) == cur
+                     and not isinstance(n.value, ast.Constant)]
+            if not resets or not moved:
+                continue
+            inside = [r for r in resets if any(p_ is outer[0] for p_ in _ancestors(r))]
+            ctx.tri(bool(inside), not inside, 'ORDER', f"gen_flags_chunk: scan cursor `{cur}` restarts at 0 for every warning regex",
+                    detail_bad=f"`{cur} = 0` is outside the per-regex loop: the next kind of warning is only searched to the "
+                               f"right of the previous kind's last match, so wording further left raises no warning",
+                    key=f"ORDER|gen_flags_chunk|reset|{cur}", where=common.loc(gf, resets[0]))
     # context slice covers the match
     body = {}
     for n in walk_local(gf.node):
@@ -371,45 +393,62 @@ def _warnings(ctx):
     ctxs = [n for n in body.get('context', []) if isinstance(n.value, ast.Subscript)
             and isinstance(n.value.slice, ast.Slice)]
     if len(ctxs) != 1:
-        raise AnalysisError("gen_flags_chunk: `context = chunk[i:j]` not found")
+        ctx.undecided('SLICE', 'gen_flags_chunk: context slice', 'context = chunk[i:j] not recognised')
+        return
     sl = ctxs[0].value.slice
     lo, hi = norm(sl.lower), norm(sl.upper)
     lo_def = body.get(lo, [None])[-1]
     hi_def = body.get(hi, [None])[-1]
     if lo_def is None or hi_def is None:
-        raise AnalysisError("gen_flags_chunk: slice bounds are not local names")
+        ctx.undecided('SLICE', 'gen_flags_chunk: context slice', 'bounds are not local names')
+        return
     tl, th = norm(lo_def.value), norm(hi_def.value)
     ok_lo = tl.replace(' ', '') in ('max((0,start_mo.start()-left_context))', 'max(0,start_mo.start()-left_context)')
     ok_hi = th.replace(' ', '') in ('min((final_end_mo.end()+right_context,max_end))',
                                     'min(final_end_mo.end()+right_context,max_end)',
                                     'min((max_end,final_end_mo.end()+right_context))')
-    if not ok_lo and ('start_mo.start()' not in tl):
-        raise AnalysisError(f"gen_flags_chunk: unrecognised lower bound `{tl}`")
-    ctx.check(ok_lo, 'SLICE', 'gen_flags_chunk: context starts at or before the match',
-              f"i = {tl}", f"lower bound `{tl}` can lie after the start of the triggering match",
-              key="SLICE|gen_flags_chunk|lower")
-    if not ok_hi and ('.end()' not in th):
-        raise AnalysisError(f"gen_flags_chunk: unrecognised upper bound `{th}`")
-    ctx.check(ok_hi, 'SLICE', 'gen_flags_chunk: context ends at or after the last match',
-              f"j = {th}", f"upper bound `{th}` can lie before the end of the triggering match",
-              key="SLICE|gen_flags_chunk|upper")
+    bad_lo = 'start_mo.start()+left_context' in tl.replace(' ', '') or 'start_mo.end()' in tl
+    ctx.tri(ok_lo, bad_lo, 'SLICE', 'gen_flags_chunk: context starts at or before the match',
+            f"i = {tl}", f"lower bound `{tl}` can lie after the start of the triggering match",
+            key="SLICE|gen_flags_chunk|lower")
+    bad_hi = '.end()-right_context' in th.replace(' ', '') or '.start()' in th
+    ctx.tri(ok_hi, bad_hi, 'SLICE', 'gen_flags_chunk: context ends at or after the last match',
+            f"j = {th}", f"upper bound `{th}` can lie before the end of the triggering match",
+            key="SLICE|gen_flags_chunk|upper")
     # the flag is raised for every first match (no guard besides `if not start_mo: break`)
     apps = [c for c in walk_local(gf.node) if isinstance(c, ast.Call)
             and norm(c.func) == 'self.parent.w_flags.append']
     ok = len(apps) == 1 and not [t for t, pol in guards(apps[0])
                                  if not (isinstance(t, ast.Constant) and t.value is True)]
-    ctx.check(ok, 'TBL', 'gen_flags_chunk raises the warning for every match found',
-              detail_bad="the warning append is conditional", key="TBL|gen_flags_chunk|unconditional")
+    ctx.shape(ok, 'TBL', 'gen_flags_chunk raises the warning for every match found')
+
+
+def _ancestors(n):
+    from ..srcmodel import parent
+    p = parent(n)
+    while p is not None:
+        yield p
+        p = parent(p)
 
 
 def _tract_sharing(ctx):
     tp = ctx.repo.func('TractParser.__init__')
     t = ' '.join(norm(s) for s in walk_local(tp.node) if isinstance(s, ast.stmt))
+    seeded = set()
     for a in ('w_flags', 'e_flags', 'w_flag_lines', 'e_flag_lines'):
-        ctx.check(f"self.{a} = parent.{a}.copy()" in t, 'TBL',
-                  f"TractParser starts from a copy of the tract's {a}",
-                  detail_bad=f"self.{a} is not seeded with parent.{a}.copy()",
-                  key=f"TBL|TractParser.__init__|{a}")
+        if f"self.{a} = parent.{a}.copy()" in t:
+            seeded.add(a)
+    for n in walk_local(tp.node):
+        if isinstance(n, ast.For):
+            names = ctx.fold.eval(n.iter, ctx.fold.func_env(tp), tp.module.name)
+            if isinstance(names, (tuple, list)) and all(isinstance(x, str) for x in names) \
+                    and 'setattr(self' in norm(n) and 'getattr(parent' in norm(n):
+                seeded |= set(names)
+    four = {'w_flags', 'e_flags', 'w_flag_lines', 'e_flag_lines'}
+    ctx.tri(four <= seeded, bool(seeded & four) and not four <= seeded, 'TBL',
+            "TractParser starts from copies of all four flag lists of its Tract",
+            detail_bad=f"only {sorted(seeded & four)} are taken over: on commit the tract's {sorted(four - seeded)} "
+                       f"(handed down by the description) are wiped", key="TBL|TractParser.__init__|flags")
     unp = ctx.fold.get_attr('tract_parse', 'TractParser', 'UNPACKABLES')
     ctx.check({'w_flags', 'w_flag_lines', 'e_flags', 'e_flag_lines'} <= set(unp), 'TBL',
               'TractParser.UNPACKABLES carries the four flag lists back to the Tract',
